@@ -75,6 +75,7 @@ typedef struct {
     mc_case_t sample[MC_MAXSAMPLE];
     volatile int deadline_hit;
     int crashed;
+    int sample_quota;
 } mc_shared_t;
 
 static mc_shared_t *mc_sh;
@@ -158,7 +159,12 @@ static void mc_fill(mc_case_t *c, const char *sub, const char *why, const char *
 }
 
 /* record the case being executed (cheap: only pointer-sized fields + memcpy) */
+static void mc_sample(const char *sub, const char *cfg, const void *in, size_t len, const char *msg);
+static uint64_t mc_cur_count;
 static inline void mc_current(const char *sub, const char *cfg, const void *in, size_t len) {
+    /* automatic samples: the 8^k-th case of each worker (spread over the enumeration order) */
+    if (((++mc_cur_count) & (mc_cur_count - 1)) == 0 && (mc_cur_count & 0x9249249249249249ull) && mc_cur_count >= 8 && mc_sh->nsample < mc_sh->sample_quota)
+        mc_sample(sub, cfg, in, len, "case executed");
     if (mc_wid < 0) return;
     mc_case_t *c = &mc_sh->w[mc_wid].cur;
     size_t n = len > MC_CASEMAX ? MC_CASEMAX : len;
@@ -222,6 +228,7 @@ static int mc_parallel(const char *phase, long nshards, mc_shard_fn fn, void *ar
     uint64_t ev0 = mc_sh->ctr[C_EVAL];
     if (mc_deadline_hit()) { ph->complete = 0; return 0; }
     mc_sh->next_shard = 0; mc_sh->shards_done = 0;
+    mc_sh->sample_quota = mc_sh->nsample + 4; if (mc_sh->sample_quota > MC_MAXSAMPLE) mc_sh->sample_quota = MC_MAXSAMPLE;
     int nw = mc_workers; if (nw > nshards) nw = (int)nshards; if (nw < 1) nw = 1;
     pid_t pids[MC_MAXW];
     fflush(stdout); fflush(stderr);
